@@ -21,7 +21,7 @@ func init() {
 	register("Transfer", genTransfer)
 }
 
-func mentions(n ast.Node, key string) bool {
+func c11Mentions(n ast.Node, key string) bool {
 	found := false
 	ast.Inspect(n, func(x ast.Node) bool {
 		if e, ok := x.(ast.Expr); ok && exprKey(e) == key {
@@ -132,7 +132,7 @@ func setStateSeq(f *ast.File, fn string, takeIf bool, depth int) ([]string, erro
 					out = append(out, sub...)
 				}
 			case *ast.IfStmt:
-				if mentions(x.Cond, "stm.stopAction") && takeIf {
+				if c11Mentions(x.Cond, "stm.stopAction") && takeIf {
 					if err := walk(x.Body.List); err != nil {
 						return err
 					}
@@ -231,7 +231,7 @@ func genShutdown() (string, error) {
 	}
 	stmts = nil
 	for _, st := range fd.Body.List {
-		if mentions(st, "l.rawl") || mentions(st, "l.packetConn") {
+		if c11Mentions(st, "l.rawl") || c11Mentions(st, "l.packetConn") {
 			break
 		}
 		switch x := st.(type) {
@@ -264,7 +264,7 @@ func genShutdown() (string, error) {
 	}
 	var top *ast.IfStmt
 	for _, st := range fd.Body.List {
-		if i, ok := st.(*ast.IfStmt); ok && mentions(i.Cond, "stagemanager.GetState") {
+		if i, ok := st.(*ast.IfStmt); ok && c11Mentions(i.Cond, "stagemanager.GetState") {
 			top = i
 		}
 	}
@@ -354,7 +354,7 @@ func genShutdown() (string, error) {
 	s += fmt.Sprintf("def drainSleepMs : Int := %d\n", ms)
 	// remainStream must be the listener's request_active counter
 	as := findFunc(hf, "activeListener", "activeStreamSize")
-	if as == nil || !mentions(as, "metrics.DownstreamRequestActive") {
+	if as == nil || !c11Mentions(as, "metrics.DownstreamRequestActive") {
 		return "", fmt.Errorf("activeStreamSize no longer reads metrics.DownstreamRequestActive")
 	}
 	if len(callsTo(loop, "al.activeStreamSize")) == 0 {
@@ -386,7 +386,7 @@ func genShutdown() (string, error) {
 	if fd == nil {
 		return "", fmt.Errorf("activeListener.OnShutdown not found")
 	}
-	broadcasts := len(callsTo(fd, "conn.OnConnectionEvent")) == 1 && len(callsTo(fd, "al.conns.VisitSafe")) == 1 && mentions(fd, "api.OnShutdown")
+	broadcasts := len(callsTo(fd, "conn.OnConnectionEvent")) == 1 && len(callsTo(fd, "al.conns.VisitSafe")) == 1 && c11Mentions(fd, "api.OnShutdown")
 	waits := len(callsTo(fd, "al.waitConnectionsClose")) == 1
 	s += "/-- `activeListener.OnShutdown`: sends `api.OnShutdown` to every connection of `al.conns` / then runs `waitConnectionsClose(drainTime)` -/\n"
 	s += fmt.Sprintf("def onShutdownBroadcasts : Bool := %v\ndef onShutdownWaits : Bool := %v\n", broadcasts, waits)
@@ -427,18 +427,18 @@ func genShutdown() (string, error) {
 		e := &Env{Names: sNames(), Calls: map[string]string{}}
 		return e.expr(hit.Cond)
 	}
-	c1, err := condOf("Stop", func(i *ast.IfStmt) bool { return mentions(i.Cond, "Nil") }, "Nil guard")
+	c1, err := condOf("Stop", func(i *ast.IfStmt) bool { return c11Mentions(i.Cond, "Nil") }, "Nil guard")
 	if err != nil {
 		return "", err
 	}
 	c2, err := condOf("Stop", func(i *ast.IfStmt) bool {
-		return mentions(i.Cond, "stm.stopAction") && len(callsTo(i.Body, "stm.runGracefulStopStage")) == 1
+		return c11Mentions(i.Cond, "stm.stopAction") && len(callsTo(i.Body, "stm.runGracefulStopStage")) == 1
 	}, "graceful-stop guard")
 	if err != nil {
 		return "", err
 	}
 	c3, err := condOf("Stop", func(i *ast.IfStmt) bool {
-		return mentions(i.Cond, "preState") && len(callsTo(i.Body, "os.Exit")) == 1 && !mentions(i.Cond, "stm.exitCode")
+		return c11Mentions(i.Cond, "preState") && len(callsTo(i.Body, "os.Exit")) == 1 && !c11Mentions(i.Cond, "stm.exitCode")
 	}, "abnormal-exit guard")
 	if err != nil {
 		return "", err
@@ -457,11 +457,11 @@ func genShutdown() (string, error) {
 	if err != nil {
 		return "", err
 	}
-	c6, err := condOf("runReload", func(i *ast.IfStmt) bool { return mentions(i.Cond, "stm.state") }, "running guard")
+	c6, err := condOf("runReload", func(i *ast.IfStmt) bool { return c11Mentions(i.Cond, "stm.state") }, "running guard")
 	if err != nil {
 		return "", err
 	}
-	c7, err := condOf("runUpgrade", func(i *ast.IfStmt) bool { return mentions(i.Cond, "stm.state") }, "new-server ack guard")
+	c7, err := condOf("runUpgrade", func(i *ast.IfStmt) bool { return c11Mentions(i.Cond, "stm.state") }, "new-server ack guard")
 	if err != nil {
 		return "", err
 	}
@@ -580,14 +580,14 @@ func genShutdown() (string, error) {
 			ignores = true
 		}
 	}
-	sendsLast := len(callsTo(ga, "sc.Framer.startWrite")) == 1 && mentions(ga, "FrameGoAway") && mentions(ga, "sc.maxClientStreamID")
+	sendsLast := len(callsTo(ga, "sc.Framer.startWrite")) == 1 && c11Mentions(ga, "FrameGoAway") && c11Mentions(ga, "sc.maxClientStreamID")
 	pd := findFunc(h2f, "MServerConn", "processData")
 	if pd == nil {
 		return "", fmt.Errorf("MServerConn.processData not found")
 	}
 	discards := false
 	for _, st := range pd.Body.List {
-		if i, ok := st.(*ast.IfStmt); ok && mentions(i.Cond, "sc.inGoAway") && mentions(i.Cond, "sc.maxClientStreamID") && endsInReturn(i.Body.List) {
+		if i, ok := st.(*ast.IfStmt); ok && c11Mentions(i.Cond, "sc.inGoAway") && c11Mentions(i.Cond, "sc.maxClientStreamID") && endsInReturn(i.Body.List) {
 			if b, ok := i.Cond.(*ast.BinaryExpr); ok && b.Op == token.LAND {
 				discards = true
 			}
@@ -1094,7 +1094,7 @@ func genTransfer() (string, error) {
 	spare := int64(-1)
 	ast.Inspect(nsc.Body, func(n ast.Node) bool {
 		i, ok := n.(*ast.IfStmt)
-		if !ok || i.Init == nil || !mentions(i.Init, "types.VariableAcceptChan") {
+		if !ok || i.Init == nil || !c11Mentions(i.Init, "types.VariableAcceptChan") {
 			return true
 		}
 		for _, c := range callsTo(i.Body, "buffer.GetIoBuffer") {
